@@ -11,7 +11,6 @@ import (
 	"sync"
 	"time"
 
-	"github.com/pojntfx/panrpc/go/pkg/rpc"
 )
 
 type spoke[T any] struct {
@@ -31,16 +30,19 @@ func (s *spoke[T]) closeTransport() {
 
 func c13Workload[T any](rep *Report, codec Codec[T], k int, rng *rand.Rand, failMode string) {
 	desc := map[string]any{"suite": "C13", "codec": codec.Name, "links": k, "fail": failMode}
+	rec, stopRec := startTraceRec()
+	defer stopRec()
 	hub := newSide[T]("H")
 	spokes := make([]*spoke[T], k)
-	linkOne := func(reg *rpc.Registry[Remote, T], ctx context.Context, outReq, outRes, inReq, inRes *Queue, errc chan error) {
+	linkOne := func(side *Side[T], ctx context.Context, outReq, outRes, inReq, inRes *Queue, errc chan error) {
+		reg := side.Reg
 		go func() {
 			errc <- reg.LinkMessage(ctx,
 				func(t T) error { return outReq.Put(codec.Bytes(t)) },
 				func(t T) error { return outRes.Put(codec.Bytes(t)) },
 				func() (T, error) { b, e := inReq.Get(); var t T; if e == nil { setBytes(any(&t), b) }; return t, e },
 				func() (T, error) { b, e := inRes.Get(); var t T; if e == nil { setBytes(any(&t), b) }; return t, e },
-				codec.Marshal, codec.Unmarshal, nil)
+				codec.Marshal, codec.Unmarshal, linkHooks(side, true))
 		}()
 	}
 	for i := 0; i < k; i++ {
@@ -50,8 +52,8 @@ func c13Workload[T any](rep *Report, codec Codec[T], k int, rng *rand.Rand, fail
 		}
 		s.hubCtx, s.hubStop = context.WithCancel(context.Background())
 		s.peer.Ctx, s.peer.Cancel = context.WithCancel(context.Background())
-		linkOne(hub.Reg, s.hubCtx, s.qs[0], s.qs[1], s.qs[2], s.qs[3], s.hubErr)
-		linkOne(s.peer.Reg, s.peer.Ctx, s.qs[2], s.qs[3], s.qs[0], s.qs[1], s.peer.LinkErr)
+		linkOne(hub, s.hubCtx, s.qs[0], s.qs[1], s.qs[2], s.qs[3], s.hubErr)
+		linkOne(s.peer, s.peer.Ctx, s.qs[2], s.qs[3], s.qs[0], s.qs[1], s.peer.LinkErr)
 		spokes[i] = s
 	}
 	defer func() {
@@ -213,6 +215,9 @@ func c13Workload[T any](rep *Report, codec Codec[T], k int, rng *rand.Rand, fail
 	}
 	// the survivors are still enumerated, the victim is gone (after its teardown)
 	waitFor(func() bool { return len(hub.Remotes()) == k-1 })
+	// the hub's life-cycle events so far, replayed on the Lean registry model (k links on one registry)
+	lines, want := rgReplay(rec.events(), hub.Hooks())
+	validateRg(rep, "C13", []modelCheck{{lines, want}}, []string{fmt.Sprintf("hub k=%d %s", k, failMode)})
 	en := hub.Remotes()
 	for i, s := range spokes {
 		_, ok := en[s.hubID]
